@@ -116,7 +116,7 @@ def dispatch (op : String) (args : List String) : String :=
   | "gresamtree" => AlgoRun.handleResamTree args
   | "gsamplers" | "gscene" | "graster" => AlgoRun.handleRaster op args
   | "gimgsave" | "gimgload" | "gimgnd" | "gimgio" | "gimgget" | "gimgread" => AlgoRun.handleImgIo op args
-  | "gtsinit" | "ggrayget" | "gtostack" | "gsavetifw" | "gsavetifio" | "gfull" | "ggray" | "gframend" | "gnrrd" | "gv3d" | "gv3draw" | "gv3dpbd" => AlgoRun.handleImgIo2 op args
+  | "ggetk" | "ggets" | "gtsinit" | "ggrayget" | "gtostack" | "gsavetifw" | "gsavetifio" | "gfull" | "ggray" | "gframend" | "gnrrd" | "gv3d" | "gv3draw" | "gv3dpbd" => AlgoRun.handleImgIo2 op args
   | "gparse" => AlgoRun.handleParse args
   | "gtosubtree" | "gcutenter" | "gcutdepth" | "gcutleave" | "gcutleaveset" | "gcuttype" | "gcutorder" => AlgoRun.handleCut op args
   | "gcuttip" => AlgoRun.handleShortTip op args
